@@ -44,9 +44,9 @@ def run(ctx):
     if drv:
         quick = ctx.tier == "quick"
         for comp in ["spsc", "overflow"]:
-            core.trace_component(ctx, comp, ["random", "--seed", ctx.seed, "--cases", 20 if quick else 100, "--progs", 100 if quick else 600],
+            core.trace_component(ctx, comp, ["random", "--seed", ctx.seed, "--cases", 20 if quick else 100, "--progs", 100 if quick else 300],
                                  label=f"{comp}.random", oracle=queue_oracle)
-            core.trace_component(ctx, comp, ["exhaustive", "--seed", ctx.seed + 1, "--cases", 2500 if quick else 60000, "--progs", 4 if quick else 12,
+            core.trace_component(ctx, comp, ["exhaustive", "--seed", ctx.seed + 1, "--cases", 2500 if quick else 20000, "--progs", 4 if quick else 12,
                                              "--preempt", 2 if quick else 3], label=f"{comp}.exhaustive", oracle=queue_oracle)
     return core.finish(
         ctx, level="proof",
